@@ -8,9 +8,17 @@ TRUSTED_COMMON = [
 ]
 
 SOCK_TRUSTED = [
-    "translated from the C++ on every run (tools/cxx2lean_qt.py, clang-14 AST): every slot of SocketPrivate and every public method of Socket in socket.cpp (18 functions), as functions over the model's state in the vocabulary of Qhttp/Model/CxxPrim.lean (one hand-written definition per Qt call / signal emission: trusted); bridge theorems QhttpBridge.Sock prove each equal to the model's function (one stated side condition: a head that parses but whose target QUrl rejects, see readHeaders_badUrl)",
+    "translated from the C++ on every run (tools/cxx2lean_qt.py, clang-14 AST): every slot of SocketPrivate and every public method of Socket in socket.cpp (18 functions), as functions over the model's state in the vocabulary of Qhttp/Model/CxxPrim.lean (one hand-written definition per Qt call / signal emission: trusted); bridge theorems QhttpBridge.Sock.* (one module per function) prove each equal to the model's function (one stated side condition: a head that parses but whose target QUrl rejects, see readHeaders_badUrl); a function outside the translated subset on the current tree takes only its own bridge modules out (listed in the evidence under bridge_modules_skipped_untranslatable) and then rests on the scenario comparison alone",
     "modelled, not verified: QIODevice read buffering (16 KiB chunking) and open-mode checks, QAbstractSocket::close flushing (SimTcp), QByteArray::{indexOf,mid,left,remove,trimmed,toLower,toLongLong,number}, QMultiMap ordering — validated differentially by the `qt` scenario family",
     "parameter: QUrl (validity, path(), query items) — theorems hold for every value, the concrete value comes from Qt through the harness",
+]
+
+PROXY_TRUSTED = [
+    "translated from the C++ on every run: ProxySocket::onUpstreamReadyRead, onUpstreamError, onDownstreamReadyRead of proxysocket.cpp over the model's Proxy.St in the vocabulary of Qhttp/Model/PxPrim.lean (calls on the downstream HTTP socket = the socket model's API; what a socket hands out when read = a parameter; trusted); bridge theorems QhttpBridge.Proxy.* prove them equal to Proxy.onUpstreamReadyRead / onUpstreamError / the branch relayReads takes; onUpstreamConnected (the upstream request head) is tied by the scenario comparison only",
+]
+
+FS_TRUSTED = [
+    "translated from the C++ on every run: FilesystemHandlerPrivate::absolutePath and FilesystemHandler::process of filesystemhandler.cpp in the vocabulary of Qhttp/Model/FxPrim.lean (QString paths as UTF-8 bytes, QDir::exists / QFileInfo::isDir as resolution on the model's tree; trusted); bridge theorems QhttpBridge.Fs.* prove that absolutePath says yes exactly when Fs.served yields a location and that process takes the decision of FsHandler.plan (404 / listing / file)",
 ]
 
 PARSER_TRUSTED = [
@@ -42,11 +50,11 @@ PROPS = {
             "trusted": SOCK_TRUSTED + ["parameter: QRegExp and the middleware verdicts (theorems hold for every matcher and every verdict assignment)"],
             "rule": "as C05 with 40% refusing middleware; refusers write a 403 marked with their id so the wire shows who answered"},
     "C07": {"count": {"quick": 1500, "thorough": 30000},
-            "trusted": SOCK_TRUSTED + ["modelled, not verified: QDir::setPath/absoluteFilePath/cleanPath/relativeFilePath, QUrl::fromPercentEncoding, kernel path resolution without symbolic links; parameter: the file system tree (theorems hold for every finite tree)",
+            "trusted": SOCK_TRUSTED + FS_TRUSTED + ["modelled, not verified: QDir::setPath/absoluteFilePath/cleanPath/relativeFilePath, QUrl::fromPercentEncoding, kernel path resolution without symbolic links; parameter: the file system tree (theorems hold for every finite tree)",
                                         "the served tree is fixed (.work/fstree, created by tools/check.py); symbolic links are outside the property's domain"],
             "rule": "exhaustive request paths of <= L segments over {name, sub, .., ., empty, %2e%2e, %252e%252e, sibling, outside file, %2f, missing} with one or two leading slashes, then random paths of <= 6 segments incl. absolute prefixes, NUL, encoded names, several spellings of the document root; real FilesystemHandler on SimTcp; status, body and disclosed names compared"},
     "C08": {"count": {"quick": 1200, "thorough": 25000},
-            "trusted": SOCK_TRUSTED + ["parameters: file contents, MIME names, listing HTML (oracles); modelled: header split at ',', Range string constructor (C16), copier (C14) with the default 64 KiB block"],
+            "trusted": SOCK_TRUSTED + FS_TRUSTED + ["parameters: file contents, MIME names, listing HTML (oracles); modelled: header split at ',', Range string constructor (C16), copier (C14) with the default 64 KiB block"],
             "rule": "files of size 0, 12, 31, 40, 65536, 70000 (across the 64 KiB copy block) x Range headers with bounds around 0, size, 65536, 2^31, malformed / multi-range / other units / case variants, and directory listings; whole response compared"},
     "C09": {"count": {"quick": 4000, "thorough": 100000},
             "trusted": SOCK_TRUSTED + ["modelled, not verified: QByteArray::fromBase64 (Qt's lenient decoder), QByteArray::split(' '), QMap lookup; credentials are compared as UTF-8 bytes (the harness registers well-formed NUL-free text)"],
@@ -59,11 +67,11 @@ PROPS = {
                 "observed, not proved: memory safety of the compiled code and of Qt — every scenario of every family runs under ASan+UBSan (-fno-sanitize-recover); a sanitizer abort, failed assertion or hang is an observation (`crash`) and fails the predicate"],
             "rule": "random event sequences for the socket: pre-buffered data, construction, segments of valid / malformed / random heads and random bytes, acknowledgements, peer disconnects, event-loop turns and every API call from idle context, with random re-entrant reactions (API calls made from inside headersParsed / readyRead / readChannelFinished / bytesWritten / disconnected); the whole observation history is compared with the model"},
     "C12": {"count": {"quick": 500, "thorough": 8000},
-            "trusted": SOCK_TRUSTED + PARSER_TRUSTED + ["the upstream side is a real QTcpSocket over loopback to a harness-owned QTcpServer; a `turn` runs the event loop until nothing moves, so timing only decides which modelled interleaving is exercised (connected before/after body segments)",
+            "trusted": SOCK_TRUSTED + PARSER_TRUSTED + PROXY_TRUSTED + ["the upstream side is a real QTcpSocket over loopback to a harness-owned QTcpServer; a `turn` runs the event loop until nothing moves, so timing only decides which modelled interleaving is exercised (connected before/after body segments)",
                                         "modelled, not verified: QUrl::toPercentEncoding, QHostAddress::toString, QAbstractSocket buffering of writes made before `connected`"],
             "rule": "methods x targets (escaped reserved characters, space, CR LF, '?', '#', '%', non-ASCII, query strings) x header sets (duplicates, pre-existing X-Forwarded-For / X-Real-IP) x bodies of 0..40 bytes x segmentations x position of the event-loop turns (body before / after the upstream connection)"},
     "C13": {"count": {"quick": 500, "thorough": 8000},
-            "trusted": SOCK_TRUSTED + PARSER_TRUSTED + ["as C12; upstream segmentation is enforced by write+flush followed by a turn on loopback"],
+            "trusted": SOCK_TRUSTED + PARSER_TRUSTED + PROXY_TRUSTED + ["as C12; upstream segmentation is enforced by write+flush followed by a turn on loopback"],
             "rule": "scripted upstream: status 100..599 and out of range, reasons incl. empty, header multisets with repeats and padding, bodies 0..700 bytes (also starting with a blank line), every kind of cut incl. inside the head and at the head/body edge; faults: connection refused, close after k bytes of the head, close after the response, late data after close"},
     "C14": {"count": {"quick": 3500, "thorough": 40000},
             "trusted": ["modelled, not verified: QBuffer/QFile read/seek/pos/atEnd, QIODevice::write refusing a negative length, QTimer::singleShot(0) = one pending call per event-loop turn; the harness devices (MemSrc, SeqSrc, LogDest) stand for QFile / sockets"],
